@@ -24,10 +24,11 @@ PENDING = "check under construction (DESIGN.md §3/§4); will be claimed once it
 CLAIMED = {
 "C12": dict(
   engine="scripted-rng-simulator",
-  technique="deterministic simulation: Polar's real simulator and samplers run under a scripted RNG seam; seeded search over resolution paths; lock-step refinement against a reference interpreter",
-  level=dict(category="exploration", design_ref="DESIGN.md §4.1-4.2",
-    text="Seeded search over generated programs x scripted resolution paths (uniform / coverage-biased / adversarial quantiles). Every random request of the real Simulator, Assignment.evaluate, Condition.evaluate and the ten samplers is resolved at a scheduler-chosen quantile; the reference interpreter resolves its own law at the same quantile, and all iteration-boundary states (including the stuttering states after guard exit), goal columns and reported means must agree; samplers are additionally compared as quantile functions on a grid and against get_support/is_discrete/get_moment. Sampling, not enumeration: a clean batch is evidence, not proof."),
-  note="Trusted: sim/refinterp.py (reference semantics, ~250 lines), sim/laws.py (scipy.stats used as a math library for cdf/ppf/moment), the generator only emits programs whose branch decisions are exact in floats (near-threshold decisions are discarded as inconclusive). Assumes random requests are issued in statement execution order and samplers are monotone non-decreasing in the underlying draw."),
+  technique="deterministic simulation: Polar's real simulator and samplers run under a scripted RNG seam (random.*, scipy rvs, numpy.random); seeded search over resolution paths (uniform / coverage / adversarial / boundary-seeking quantiles); lock-step refinement against a reference interpreter, programs alone and in sequences within one interpreter",
+  level=dict(category="exploration", design_ref="DESIGN.md §4.1-4.2, Corrections 1-3, 14-15",
+    text="Seeded search over generated programs (all constructs, all ten families, state-dependent parameters and probabilities, nested if/elif/else, guards that exit) x scripted resolution paths. Every random request of the real Simulator, Assignment.evaluate, Condition.evaluate and the ten samplers is resolved at a scheduler-chosen quantile of its own law; the reference interpreter resolves its own law at the same quantile (or the upper quantile when the implementation uses the draw antithetically), and all iteration-boundary states (including the stuttering states after guard exit), goal columns and reported means (Simulator API and SimulationAction end to end) must agree; 20 % of the cases simulate 2-4 programs one after the other in one interpreter. Samplers are additionally compared as quantile functions on a grid and against get_support / is_discrete / get_moment. Sampling, not enumeration: a clean batch is evidence, not proof."),
+  note="Trusted: sim/refinterp.py (reference semantics, ~300 lines), sim/laws.py (scipy.stats used as a math library for cdf/ppf/isf/moment). Branch decisions closer than 1e-11 relative are discarded as inconclusive; runs in which randomness is drawn past the seam are inconclusive. Assumes random requests are issued in statement execution order, one per executed probabilistic statement, and that finite choices are requested as finite laws."),
+),
 "C05": dict(
   engine="scripted-rng-simulator",
   technique="deterministic simulation: executions of the normalised program by Polar's own evaluator under a scripted RNG seam, seeded adversarial/coverage resolution schedules far past guard exit; state invariant value-in-type monitored after every assignment; independent exact evaluator confirms",
@@ -42,10 +43,10 @@ CLAIMED = {
   note="Trusted: sim/canon.py (value comparison), the pristine-template fork (parent never analyses anything), Polar itself as its own reference. A session's option vector is re-applied before each of its steps. Step wall-clock timeouts are inconclusive."),
 "C17": dict(
   engine="session-simulator",
-  technique="deterministic simulation: one interpreter hosting 2-4 interleaved sessions of the same program and goals under swarm-drawn option vectors applied through the real global settings seam; results checked against the default vector alone in a pristine interpreter, with attribution runs separating option effects from history effects",
-  level=dict(category="exploration", design_ref="DESIGN.md §3.4",
-    text="Seeded swarm over option vectors (transform_categoricals x cond2arithm x type_fp_iterations x solver dispatch/force_cyclic x explicit types equal to the inferred ones with inference disabled x numeric_roots x numeric_croots x numeric_eps) and over programs that make them bite (the repo's benchmarks, generated finite-state programs with categoricals and conditions, linear systems with complex / irrational / zero / repeated characteristic roots). Sessions with different vectors are interleaved step by step in one interpreter, so the process-global options churn between any two API steps. Oracle: whenever a goal succeeds under a vector and under the default vector (alone, pristine interpreter, PYTHONHASHSEED=0), representation/strategy vectors must give exactly equal values at n=0..7,12; numeric vectors may differ only when flagged rounded and only within a loose bound. A deviation that does not reproduce with the vector alone in a pristine interpreter is history dependence and is only noted. Differential comparison by sampling: a defect common to all option vectors is invisible."),
-  note="Trusted: sim/canon.py, Polar under the default vector as reference. trivial_guard and exact_func_moments are excluded from the C17 oracle. One side refusing is not a violation."),
+  technique="deterministic simulation: the same seeded history of analyses (1-4 programs, sequential or interleaved steps) executed in two pristine interpreters, under a swarm-drawn option vector applied through the real global settings seam and under the default vector; goal-by-goal comparison",
+  level=dict(category="exploration", design_ref="DESIGN.md §3.4, Corrections 10, 13, 16",
+    text="Seeded swarm over option vectors (transform_categoricals x cond2arithm x type_fp_iterations x solver dispatch/force_cyclic x explicit types equal to the inferred ones with inference disabled x numeric_roots x numeric_croots x numeric_eps) and over programs that make them bite (the repo's benchmarks; generated finite-state programs with categoricals, conditions and multiply-assigned variables; top-level 3-4-way categoricals; modular counters analysable with declared types only; linear systems with complex / irrational / zero / repeated / cubic characteristic roots, accumulators and counters; delay lines). A history of 1-4 analyses is executed twice in pristine forked interpreters with the same schedule - under the vector and under the default vector - so that a difference is an effect of the options alone, including effects that need an earlier analysis in the same process. Oracle: whenever a goal succeeds on both sides, representation/strategy vectors must give exactly equal values at n=0..7,12 (two generic parameter points); numeric vectors may differ only when flagged rounded and only within a loose bound. Differential comparison by sampling: a defect common to all option vectors is invisible."),
+  note="Trusted: sim/canon.py, Polar under the default vector as reference. trivial_guard and exact_func_moments are excluded from the C17 oracle. One side refusing or timing out is not a violation; closed forms over different auxiliary symbols (_prob<k>) are inconclusive."),
 }
 checks = []
 for pid, c in sorted(CLAIMED.items()):
